@@ -225,10 +225,7 @@ impl Expr {
                     }
                     BinOpKind::Pow => {
                         if lhs.is_integer() && rhs.is_integer() && rhs.as_integer() >= 0 {
-                            lhs.as_integer()
-                                .overflowing_pow(rhs.as_integer() as u32)
-                                .0
-                                .into()
+                            wrapping_pow(lhs.as_integer(), rhs.as_integer() as u64).into()
                         } else {
                             lhs.as_float().powf(rhs.as_float()).into()
                         }
@@ -300,6 +297,21 @@ impl Expr {
             UnOpKind::Round => res.as_float().round().into(),
         })
     }
+}
+
+/// Integer power with 64-bit wrap-around for any non-negative exponent.
+///
+/// `i64::overflowing_pow` takes a `u32` exponent, so an exponent of `2^32` or more would be silently truncated.
+fn wrapping_pow(mut base: i64, mut exp: u64) -> i64 {
+    let mut acc: i64 = 1;
+    while exp > 0 {
+        if exp & 1 == 1 {
+            acc = acc.wrapping_mul(base);
+        }
+        base = base.wrapping_mul(base);
+        exp >>= 1;
+    }
+    acc
 }
 
 #[derive(Debug, Clone, Copy, PartialEq, Eq)]
